@@ -20,7 +20,7 @@ _B_MOD = ["each(individuals).state", "each(individuals).costs", "each(individual
           "each(individuals).ghost_evals", "each(individuals).features.start_time", "each(individuals).features.finish_time",
           "each(individuals).features.feasible", "list(self.job.problem.failed)", "listof(each(individuals).costs)",
           "$cv.Individual.counter"] + \
-         ["self.job.problem." + g for g in ("ghost_calls", "ghost_last_arg", "ghost_last_vec", "ghost_last_ret", "ghost_nontransient", "ghost_last_g")] + \
+         ["self.job.problem." + g for g in ("ghost_calls", "ghost_last_arg", "ghost_last_vec", "ghost_last_ret", "ghost_nontransient", "ghost_last_g", "ghost_last_g_vec")] + \
          ["self.job.problem.surrogate." + f for f in ("eval_counter", "predict_counter", "trained", "ghost_trains", "regressor")] + \
          ["list(self.job.problem.surrogate.x_data)", "list(self.job.problem.surrogate.y_data)"]
 _B_INV = [
@@ -88,7 +88,7 @@ contract("artap.operators:Evaluator.evaluate_scalar", props=["C05"], options=_MU
          raises={"RuntimeError": [], "OtherError": []},
          modifies=["list(self.algorithm.problem.individuals)", "list(self.job.problem.failed)", "$cv.Individual.counter",
                    "list(self.job.problem.surrogate.x_data)", "list(self.job.problem.surrogate.y_data)"] +
-                  ["self.job.problem." + g for g in ("ghost_calls", "ghost_last_arg", "ghost_last_vec", "ghost_last_ret", "ghost_nontransient", "ghost_last_g")] +
+                  ["self.job.problem." + g for g in ("ghost_calls", "ghost_last_arg", "ghost_last_vec", "ghost_last_ret", "ghost_nontransient", "ghost_last_g", "ghost_last_g_vec")] +
                   ["self.job.problem.surrogate." + f for f in ("eval_counter", "predict_counter", "trained", "ghost_trains", "regressor")],
          allocates=_ALLOC_IND)
 
@@ -126,7 +126,7 @@ contract("DataStore.sync_all", abstract=True, params=["self"], props=["C05", "C0
 
 _RUN_MOD = ["list(self.problem.individuals)", "list(self.problem.failed)", "$cv.Individual.counter",
             "list(self.problem.surrogate.x_data)", "list(self.problem.surrogate.y_data)"] + \
-           ["self.problem." + g for g in ("ghost_calls", "ghost_last_arg", "ghost_last_vec", "ghost_last_ret", "ghost_nontransient", "ghost_last_g")] + \
+           ["self.problem." + g for g in ("ghost_calls", "ghost_last_arg", "ghost_last_vec", "ghost_last_ret", "ghost_nontransient", "ghost_last_g", "ghost_last_g_vec")] + \
            ["self.problem.surrogate." + f for f in ("eval_counter", "predict_counter", "trained", "ghost_trains", "regressor")] + \
            ["Individual." + f for f in ("state", "vector", "costs", "costs_signed", "ghost_evals", "algorithm_id", "population_id",
                                         "id", "parents", "children", "features", "custom")] + \
